@@ -18,6 +18,7 @@ POOL_ATTR = [(4, False), (3, False), (4, False), (4, True), (2, False)]
 FILES = [[1], [2, 1], [1, 4, 3], [4], [5, 3], [2, 4]]
 FILTER = '${%edition} == 4'
 MD_QUERY, DATA_QUERY = '%edition', '012001'
+PREAMBLE, OLD = 'ZCZC 123\r\r\n', b'OLD CONTENT\n'
 MD_SCRIPT = 'print(${%edition}, ${%n_subsets}, PBK_FILENAME)'
 DATA_SCRIPT = 'print(${%edition}, ${012001}, PBK_FILENAME)'
 
@@ -45,7 +46,7 @@ def tlc_run(wd, name, commands, stream_opts=True):
               'Commands': '{' + ', '.join('"%s"' % c for c in commands) + '}', 'StreamOpts': 'TRUE' if stream_opts else 'FALSE'}
     text = tlc.mc_module(name, ['Cmd'], consts)
     cfg = tlc.mc_cfg(consts, invariants=['TypeOK', 'ValidInputNeverFails', 'InfoAndSplitNeverFail', 'SplitPiecesAreTheMessages',
-                                          'SingleModeIgnoresStreamOptions', 'FormatFromFlags', 'FilterAndContinue', 'Emit'])
+                                          'SingleModeIgnoresStreamOptions', 'FormatFromFlags', 'FilterAndContinue', 'AppendKeepsOld', 'Emit'])
     res = tlc.run(wd, name, cfg, text, coverage=False, lazy_emitted=True)
     tlc.require_ok(res, name)
     return res
@@ -138,6 +139,9 @@ def argv_of(inv, names):
         a += (['-j'] if o['json'] else []) + (['-n'] if o['nested'] else []) + [MD_QUERY if o['md'] else DATA_QUERY]
     elif c == 'script':
         a += ['-n', str(o['lvl']), MD_SCRIPT if o['md'] else DATA_SCRIPT]
+    elif c == 'encode':
+        a += (['-j'] if o['json'] else []) + (['-a'] if o['attributed'] else []) + (['--append'] if o['append'] else [])
+        a += ['--preamble', PREAMBLE] if o['pre'] else []
     return a + names
 
 
@@ -151,6 +155,8 @@ def run_case(case, pool, d):
         with open(fn, 'wb') as fh:
             fh.write(b''.join(pool[m - 1] for m in f))
         names.append(fn)
+    if inv['cmd'] == 'encode':
+        return run_encode_case(case, pool, d, names)
     argv = argv_of(inv, names)
     out, err, exc = _main(argv)
     feat = inv['cmd'] + ',' + ','.join(k for k, v in sorted(inv['o'].items()) if v is True)
@@ -192,6 +198,37 @@ def run_case(case, pool, d):
         extra = [x for x in os.listdir(d) if x.count('.') == 2 and os.path.join(d, x) not in pieces]
         if extra:
             return (('cmd', 'split', 'extra-piece', feat), 'unexpected pieces %r' % (extra,))
+    return None
+
+
+def run_encode_case(case, pool, d, names):
+    """encode: the input file holds the rendering of the message in the format of the flags; the output file is compared."""
+    from pybufrkit.decoder import Decoder
+    from pybufrkit.encoder import Encoder
+    from pybufrkit.renderer import FlatJsonRenderer
+    inv, item = case['inv'], case['out'][0]
+    o = inv['o']
+    data = pool[item['m'] - 1]
+    text = _text_of({'k': 'render', 'fmt': item['fmt'], 'm': item['m']}, pool, names, case)
+    fin, fout = os.path.join(d, 'in.txt'), os.path.join(d, 'out.bufr')
+    with open(fin, 'w') as f:
+        f.write(text)
+    if o['exists']:
+        with open(fout, 'wb') as f:
+            f.write(OLD)
+    argv = argv_of(inv, [fin, fout])
+    out, err, exc = _main(argv)
+    feat = 'encode,' + ','.join(k for k, v in sorted(o.items()) if v is True)
+    if exc is not None and not (isinstance(exc, SystemExit) and exc.code in (0, None)):
+        return (('cmd', 'traceback', type(exc).__name__, feat), 'pybufrkit %s ended with %r' % (' '.join(argv[:-2]), exc))
+    if err.strip():
+        return (('cmd', 'unexpected-error', '', feat), 'stderr: %s' % err[-300:])
+    want_msg = bytes(Encoder().process(FlatJsonRenderer().render(Decoder().process(data))).serialized_bytes)
+    want = (OLD if item['old'] else b'') + (PREAMBLE.encode('utf8') if item['pre'] else b'') + want_msg
+    got = open(fout, 'rb').read() if os.path.exists(fout) else None
+    if got != want:
+        return (('cmd', 'encode', 'file-differs', feat), 'pybufrkit %s: the output file holds %s octets, the specification %d (old content kept: %s, preamble: %s)' % (
+            ' '.join(argv[:-2]), 'no' if got is None else len(got), len(want), item['old'], item['pre']))
     return None
 
 
